@@ -15,7 +15,7 @@ namespace Nstd.Codec
 open Nstd.Generated.Codec
 open Nstd.Generated
 
-theorem body_hex_table : CodecBody.fromHex_hex = hexAlphabet := by decide
+theorem body_hex_table : CodecBody.fromHex_tab1 = hexAlphabet := by decide
 
 theorem body_fromHex_loop :
     ∀ (rest pre : List Nat) (fuel d : Nat) (out : List Nat), rest.length < fuel →
@@ -67,7 +67,7 @@ theorem body_fromHex (data : List Nat) (fuel : Nat) (h2 : data.length * 2 < 1844
   rw [Nat.mod_eq_of_lt h2]
   exact this
 
-theorem body_b64_table : CodecBody.fromBase64_base64de = base64de := by decide
+theorem body_b64_table : CodecBody.fromBase64_tab1 = base64de := by decide
 
 /-- what `fromBase64` does with the outcome of the loop: `return String()` / `result.resize(j); return result;` -/
 def b64Finish (r : Option (Nat × List Nat)) : Res (List Nat) :=
